@@ -141,6 +141,8 @@ def run_subcheck(prop_id, sub, tier, seed, shard, nshards, known_sigs, time_budg
         "known_hits": Counter(), "error": None, "exhaustive": False, "wall_s": 0.0,
     }
     n = sub.quick if tier == "quick" else sub.thorough
+    if os.environ.get("VERIF_QUICK_CAP") and tier == "quick":
+        n = min(n, int(os.environ["VERIF_QUICK_CAP"]))       # (tools/libcov.py: a cheap in-process pass)
     found_sigs = {}   # sig -> failure dict (violations already captured in this run)
     state = {"last_fail": None}
 
